@@ -39,6 +39,28 @@ func elementTypes(td llvm.TargetData, typ llvm.Type) (types []llvm.Type) {
 	return
 }
 
+// elementOffsets returns the byte offset of every scalar element of typ, in the
+// order of elementTypes, taking the padding of nested structs and arrays into account.
+func elementOffsets(td llvm.TargetData, typ llvm.Type, base int) (offsets []int) {
+	switch typ.TypeKind() {
+	case llvm.VoidTypeKind:
+	case llvm.StructTypeKind:
+		for i, t := range typ.StructElementTypes() {
+			offsets = append(offsets, elementOffsets(td, t, base+int(td.ElementOffset(typ, i)))...)
+		}
+	case llvm.ArrayTypeKind:
+		sub := typ.ElementType()
+		size := int(td.TypeAllocSize(sub))
+		n := typ.ArrayLength()
+		for i := 0; i < n; i++ {
+			offsets = append(offsets, elementOffsets(td, sub, base+i*size)...)
+		}
+	default:
+		offsets = append(offsets, base)
+	}
+	return
+}
+
 func checkTypes(typs []llvm.Type, typ llvm.Type) bool {
 	for _, t := range typs {
 		if t != typ {
@@ -114,19 +136,13 @@ func (p *TypeInfoAmd64) GetTypeInfo(ctx llvm.Context, ftyp llvm.Type, typ llvm.T
 					return info
 				}
 			}
-			var offset int
-			var index int
-			for i, et := range types {
-				align := p.Alignof(et)
-				offset = (offset + p.Sizeof(et) + align - 1) &^ (align - 1)
-				if offset < 8 {
-					continue
-				} else if offset > 8 {
+			// split at the first element that lies in the second eightbyte
+			index := len(types)
+			for i, offset := range elementOffsets(p.td, typ, 0) {
+				if offset >= 8 {
 					index = i
-				} else {
-					index = i + 1
+					break
 				}
-				break
 			}
 			subType := func(subs []llvm.Type, left bool) llvm.Type {
 				if len(subs) == 1 {
@@ -137,13 +153,8 @@ func (p *TypeInfoAmd64) GetTypeInfo(ctx llvm.Context, ftyp llvm.Type, typ llvm.T
 				if left {
 					return ctx.Int64Type()
 				}
-				var n int
-				for _, sub := range subs {
-					align := p.Alignof(sub)
-					n = (n + p.Sizeof(sub) + align - 1) &^ (align - 1)
-				}
-				n = (n + info.Align - 1) &^ (info.Align - 1)
-				return ctx.IntType(n * 8)
+				// the bytes of the object that lie in the second eightbyte
+				return ctx.IntType((info.Size - 8) * 8)
 			}
 			info.Kind = AttrWidthType2
 			info.Type1 = subType(types[0:index], true)
